@@ -351,6 +351,12 @@ Definition std_pure (path:string) (args:list value) : option (list value) :=
     Some [VError (match args with VStr s :: _ => s | _ => "fmt.Errorf" end)]
   else if String.eqb path "errors.New" then
     Some [VError (match args with VStr s :: _ => s | _ => "errors.New" end)]
+  else if existsb (String.eqb path)
+            ["strconv.FormatUint"; "strconv.FormatInt"; "strconv.Itoa"; "strconv.Quote"; "fmt.Sprintf"; "fmt.Sprint";
+             "fmt.Sprintln"; "strings.Join"; "strings.TrimSpace"; "strings.ToLower"; "strings.ToUpper"; "strings.Repeat"] then
+    (* pure text formatting: the text itself is never inspected (it ends up in messages); a decision that depended
+       on it would be undetermined and the run stuck *)
+    Some [VOpaque path]
   else None.
 
 (** *** the machine
